@@ -27,6 +27,7 @@ AllKeys == 1 .. 6
 OpCodes == {10 + kx : kx \in AllKeys} \cup {20 + kx : kx \in IdentKeys}
            \cup {70 + kx : kx \in {1, 6}} \cup {80 + kx : kx \in {1, 3}} \cup {90 + kx : kx \in {1, 6}}
            \cup {30 + kx : kx \in {1, 2, 5}} \cup {40 + kx : kx \in {1, 2}}
+           \cup {100 + kx : kx \in {1, 6}} \cup {110 + kx : kx \in {1, 3}}
            \cup {50 + kx : kx \in {1, 3, 6}} \cup {60 + kx : kx \in {1, 4}}
 
 OpStmt(code, n, obj) ==
@@ -41,13 +42,17 @@ OpStmt(code, n, obj) ==
       [] kind = 7 -> SAssign(EIndex(EVar(obj), EIStr(<<Lit(<<>>), SlotP(0, EStr(key)), Lit(<<>>)>>)), EInt(n))
       [] kind = 8 -> SOpAssign(EIndex(EVar(obj), EBin("+", EStr(<<>>), EStr(key))), "+", EInt(n))
       [] kind = 9 -> SPrint(EIndex(EVar(obj), EIStr(<<Lit(key), SlotP(0, EStr(<<>>)), Lit(<<>>)>>)))
+      \* op-assignment with an operator that is not commutative: o[k] = o[k] - n
+      [] kind = 10 -> SOpAssign(EIndex(EVar(obj), EStr(key)), "-", EInt(n + 3))
+      [] kind = 11 -> SOpAssign(EProp(EVar(obj), key), "-", EInt(n + 3))
 
 \* the same operation through the other access path (identifier keys only)
 OtherPath(code) ==
     LET kind == code \div 10 IN
     IF Md(code, 10) \in IdentKeys
     THEN (CASE kind = 1 -> 20 [] kind = 2 -> 10 [] kind = 3 -> 40 [] kind = 4 -> 30
-            [] kind = 5 -> 60 [] kind = 6 -> 50 [] kind = 7 -> 20 [] kind = 8 -> 40 [] kind = 9 -> 60) + Md(code, 10)
+            [] kind = 5 -> 60 [] kind = 6 -> 50 [] kind = 7 -> 20 [] kind = 8 -> 40 [] kind = 9 -> 60
+            [] kind = 10 -> 110 [] kind = 11 -> 100) + Md(code, 10)
     ELSE code
 
 Observe(obj) == <<SPrint(EVar(obj)), SFor(EVar(Kv), EVar(obj), <<SPrint(EVar(Kv))>>)>>
@@ -81,6 +86,9 @@ Lits == [
   spreadself |-> EObj(<<Pair(EStr(<<97>>), EInt(9)), PSpread(EVar(Q)), Pair(EStr(<<97>>), EInt(7)), Short(EVar(Xv))>>),
   shorttwice |-> EObj(<<Short(EVar(Xv)), Pair(EStr(<<120>>), EInt(1)), Short(EVar(Xv))>>),
   compdup  |-> EObj(<<Pair(EVar(Nm), EInt(1)), Pair(EStr(<<107>>), EInt(2)), Pair(EBin("+", EStr(<<>>), EVar(Nm)), EInt(3))>>),
+  nonstreffect |-> EObj(<<Pair(EStr(<<97>>), ECall(EVar(N_print), <<EInt(1)>>)),
+                          Pair(EInt(1), ECall(EVar(N_print), <<EInt(2)>>)), Pair(EStr(<<98>>), ECall(EVar(N_print), <<EInt(3)>>))>>),
+  nonstrfail   |-> EObj(<<Pair(ENull, EProp(EVar(Q), <<122, 122>>))>>),
   nestedspread |-> EObj(<<Pair(EStr(<<111>>), EObj(<<PSpread(EVar(Q))>>)), PSpread(EVar(Q))>>)
 ]
 
